@@ -6,7 +6,7 @@ use serde_json::json;
 
 pub const RULE: &str = "digests over 4 scale functions x delta in {1.1,2,5,10,20,50,100,300,1000} x backlog in {0,1,10,1000} x 13 data families (7 smooth incl. sorted/reverse/sawtooth orders, 6 with heavy ties or density cliffs), reads interleaved at random positions; at checkpoints n in {1,2,10,100,...}: n_centroids <= delta+3, and for a grid of ~1200 q and ~700 x the rank error of quantile(q) / cdf(x) against the exact empirical CDF of all inserted values must be <= c*W + 2/n (c=1 smooth, 3 ties/cliffs, 15% guard band). plus six very long sorted streams (6x10^7 quick, 3x10^8 thorough inserts, backlog 10^5) whose empirical CDF is known analytically: centroid bound and quantile accuracy at n = 10^6, 4x10^6, ... ; non-trivial = digest that performed >= 1 fuse and was checked at n >= 100; distinct = (scale, delta, backlog, family, seed) tuples";
 pub const ASSUMPTIONS: &[&str] = &[
-    "value tolerance tau = 1e-9 * data range when locating quantile(q) in the empirical CDF (interpolation between equal means returns the tied value +- 1 ulp)",
+    "value tolerance tau = max(1e-9 * data range, n * eps * max|x|) when locating quantile(q) in the empirical CDF (a centroid mean is sum/count of a plain running f64 sum and carries its accumulation error)",
     "K2/K3 accuracy is only checked for n >= delta, as stated",
     "'small multiple' is read as c*W with a 15% guard band: thresholds 1.5 W (smooth: the generic midpoint-interpolation bound) and 3.45 W (ties/cliffs, 3 W + 15 %)",
 ];
@@ -63,10 +63,16 @@ pub fn check_accuracy(t: &dyn Td, sf: Sf, delta: f64, fam: Family, sorted: &[f64
         return Ok(()); // vacuous
     }
     let (lo, hi) = (sorted[0], sorted[n - 1]);
-    // value tolerance: 1e-9 of the range, and never below a few ulps of the values' magnitude
-    // (a fused centroid stores sum and count; its mean carries the accumulation error of the sum,
-    // ~ sqrt(n) ulps of the values' magnitude, which matters for tied values far from zero)
-    let tau = (1e-9 * (hi - lo)).max(16.0 * f64::EPSILON * lo.abs().max(hi.abs()) * nf.sqrt()).max(f64::MIN_POSITIVE);
+    // value tolerance: 1e-9 of the range, and never below the rounding error a centroid mean can
+    // legitimately carry. A fused centroid stores (sum, count) and the sum is a plain running
+    // f64 sum; recursive summation of c terms of magnitude M is accurate to (c-1)*u*c*M (Higham),
+    // so the mean is accurate to about c*u*M with u = eps/2. For tied values the rounding is
+    // systematic (the same addend rounds the same way thousands of times), so the sqrt(n) random-walk
+    // model that was used here first is too tight: a constant stream of 783229 copies of
+    // 1700000425000.0 legitimately ends with centroid means 5.6 below the value (thorough seed 4).
+    // tau = n * eps * M is twice the textbook worst case with c <= n.
+    let mag = lo.abs().max(hi.abs());
+    let tau = (1e-9 * (hi - lo)).max(f64::EPSILON * mag * nf.max(16.0 * nf.sqrt())).max(f64::MIN_POSITIVE);
     if let Some((is_cdf, arg, val)) = first_read {
         *evals += 1;
         let err = if is_cdf {
